@@ -23,7 +23,7 @@ def analyse(out, prog, it, oc, exc, ctx, want_fail_checks=True):
     S = Structure(prog)
     log = [e for e in it.log if e[0] <= it.end_seq]
     per = by_activity(it.log, it.end_seq)
-    if oc != 'ok':
+    if oc != 'ok' and not (oc == 'exc' and it.describe(exc)[0] == 'prog'):
         sig = ('exc:' + type(exc).__name__) if oc == 'exc' else oc
         out.fail('run_outcome', sig, 'run() ended with %s %r;%s' % (oc, exc, ctx))
     # individually cancelled tasks
